@@ -2,7 +2,7 @@
 //!
 //! Space: every descriptive-text slot (command about, subcommand about, help of a flag / option /
 //! positional, possible-value help; one at a time and all at once) x every string of <= k atoms over
-//! 28 hostile atoms (bare and flanked by `x`…`y`) x 6 generators.
+//! 29 hostile atoms (bare and flanked by `x`…`y`) x 6 generators.
 //! Oracle: structure(script with hostile text) == structure(script with innocuous text of the same
 //! emptiness), where structure abstracts the content of string literals and comments:
 //! bash — byte-identical output and real `bash -n`; nushell — the real nushell parser (nu-parser):
@@ -19,8 +19,8 @@ use serde_json::{json, Value};
 const PROP: &str = "C17";
 const GENS: [&str; 6] = ["bash", "zsh", "fish", "powershell", "elvish", "nushell"];
 const SLOTS: [&str; 7] = ["about", "sub_about", "flag_help", "opt_help", "pos_help", "pv_help", "all"];
-const ATOMS: [&str; 28] = [
-    "'", "\"", "\\", "$", "`", "$(x)", "(", ")", "[", "]", "{", "}", ":", ";", ",", "#", "|", "&", "!", "*", " ", "\n", "\r", "\t", "‘", "’", "‚", "é",
+const ATOMS: [&str; 29] = [
+    "'", "\"", "\\", "$", "`", "$(x)", "(", ")", "[", "]", "{", "}", ":", ";", ",", "#", "|", "&", "!", "*", " ", "\n", "\r", "\t", "‘", "’", "‚", "é", "‛",
 ];
 
 fn gen(which: &str, spec: &CmdSpec) -> String {
